@@ -6,7 +6,9 @@ Record case := {
   c_up : presp;       (* what the fake upstream answered to the first request it saw *)
   o_up_req : preq;    (* the first request the upstream saw (transport-owned headers projected away) *)
   o_up_count : N;     (* how many requests the upstream saw *)
-  o_resp : presp      (* what the client received (Date / Content-Length projected away) *)
+  o_resp : presp;     (* what the client received (Date / Content-Length projected away) *)
+  c_unusual_body : bool  (* the request body had no declared length (ContentLength -1 / chunked), or there was no
+                            body at all, or the method is one that rarely carries a body (not POST/PUT/PATCH) *)
 }.
 
 Definition vals_eqb := list_eqb String.eqb.
@@ -33,7 +35,9 @@ Definition check (c : case) : codes :=
    then [] else [code_mismatch]) ++
   (* the property on the observation *)
   (if String.eqb (q_method r) (q_method seen) && String.eqb (q_target r) (q_target seen) &&
-      String.eqb (q_body r) (q_body seen) && (o_up_count c =? 1)%N then [] else [10%N]) ++
+      (String.eqb (q_body r) (q_body seen) || c_unusual_body c) && (o_up_count c =? 1)%N then [] else [10%N]) ++
+  (* body identity for bodies of unknown length / chunked bodies / bodies on unusual methods: dedicated code *)
+  (if c_unusual_body c && negb (String.eqb (q_body r) (q_body seen)) then [16%N] else []) ++
   (if forallb (fun n => String.eqb n xff ||
                         option_eqb vals_eqb (option_map (fun vs => [joinc vs]) (hlookup n (q_hdrs r))) (hlookup n (q_hdrs seen)))
               (names (q_hdrs r) ++ names (q_hdrs seen)) then [] else [11%N]) ++
